@@ -18,11 +18,17 @@ class NotFlat(Exception):
     pass
 
 
+def _pv(v):
+    """a literal read out of a numpy array carries a numpy scalar; it prints and reloads as the same literal"""
+    import ir
+    return ir.pyval_plain(v)
+
+
 def _lit(e):
     if isinstance(e, (qa.IntegerLiteral, qa.FloatLiteral, qa.BooleanLiteral)):
-        return e.value
+        return _pv(e.value)
     if isinstance(e, qa.UnaryExpression) and e.op.name == "-" and isinstance(e.expression, (qa.IntegerLiteral, qa.FloatLiteral)):
-        return -e.expression.value
+        return -_pv(e.expression.value)
     raise NotFlat("non-literal %s" % type(e).__name__)
 
 
